@@ -33,6 +33,17 @@ def handle (args : List String) : Option String :=
     let progs ← listTok progTok progs
     let sched ← schedTok sched
     pure (toString (absRaceCount (init false progs) false sched))
+  | ["visits", vs] => do
+    -- the counter visits of any number of `State::flush`es, in order: `<key id>:<delta>:<0|1 = write accepted>`;
+    -- answer per visit: `w` written, `r` decided but the write was rejected, `s` skipped (`visits`, Model/StatsdAgg.lean)
+    let vs ← listTok (fun c => match c.splitOn ":" with
+      | [k, d, ok] => do
+        let k ← k.toNat?
+        let d ← d.toNat?
+        if ok == "1" then pure (Visit.mk k d true) else if ok == "0" then pure (Visit.mk k d false) else none
+      | _ => none) vs
+    pure (showList (fun (o : Nat × Nat × Bool × Bool) => if o.2.2.2 then "w" else if o.2.2.1 then "r" else "s")
+      (visits [] vs))
   | ["gauge", calls] => do
     let calls ← listTok (fun c => match c.toList with
       | ['f'] => some GCall.flush
